@@ -4366,17 +4366,18 @@ class Macro:
                 MacroArgumentKind.MATCH: ("regex", "end_expr", "concat_expr", "string_const", "string_case_const", "binary_regex", "binary_string_const", "identifier_const"),
                 MacroArgumentKind.INTEXPR: ("string_const", "bool_const", "number_const", "char_const", "identifier_const", *all_sum_expr_nodes)
             }[argspec.kind]
-            if value.data not in allowed_types:
-                raise IllegalParseTree("Invalid argument type for argument " + argspec.name, value)
-            if argspec.should_early_bind():
-                value = parse_ctx._lookup_named_entity(argspec.kind, value.children[0])
-            elif value.data == "identifier_const":
+            if not argspec.should_early_bind() and value.data == "identifier_const":
                 # A bare identifier may name a match/expr argument of the calling macro: substitute it now, in the caller's scope,
-                # so that it is not looked up again (possibly finding itself) once the callee's frame is active.
+                # so that it is not looked up again (possibly finding itself) once the callee's frame is active -- and so that the
+                # kind of what is actually passed gets checked.
                 try:
                     value = parse_ctx._lookup_named_entity(MacroArgumentKind.EXPR, value.children[0])
                 except UndefinedReferenceError:
                     pass
+            if value.data not in allowed_types:
+                raise IllegalParseTree("Invalid argument type for argument " + argspec.name, value)
+            if argspec.should_early_bind():
+                value = parse_ctx._lookup_named_entity(argspec.kind, value.children[0])
             if not argspec.should_early_bind() and not isinstance(value, BoundArgumentTree):
                 value = BoundArgumentTree(value, parse_ctx.bound_argument_stack)
             bound_arguments[(argspec.get_lookup_type(), argspec.name)] = value
